@@ -96,7 +96,7 @@ CHECKS["C09"] = dict(
    design="DESIGN.md §3 C09")
 CHECKS["C10"] = dict(
    technique="property-based testing (Hypothesis): every shipped example with a closed-form rate is run at generated parameters inside its documented range and compared with the rate it documents (tight: equality 1e-3, upper: one-sided); metamorphic relation: 13 equivalent formulations against their base example at generated parameters",
-   text="Generated-input search over the parameter ranges stated in the docstrings of 58 examples (vf/examples_table.py: kind tight / upper derived from the docstring wording and the assertion used in the suite) and over parameters of the complexified formulations (split functions, redundant LMIs, useless partitions): tight rates are met, upper bounds are not exceeded, equivalent formulations do not move the value, and the wrapper / solver an example is called with are the ones its PEP.solve call receives.",
+   text="Generated-input search over the parameter ranges stated in the docstrings of 65 examples (vf/examples_table.py: kind tight / upper derived from the docstring wording and the assertion used in the suite) and over parameters of the complexified formulations (split functions, redundant LMIs, useless partitions): tight rates are met, upper bounds are not exceeded, equivalent formulations do not move the value, and the wrapper / solver an example is called with are the ones its PEP.solve call receives.",
    note="Trusted: the closed forms returned by the examples within the documented ranges, CLARABEL (non-optimal statuses are inconclusive). Examples without closed form are only used in C09 / the metamorphic stream.",
    design="DESIGN.md §3 C10, Appendix B")
 
